@@ -623,6 +623,7 @@ pub fn exec_step<const N: usize>(
         // documented: a leaked drain may lose arbitrary elements; they are gone, not "leaked by a bug"
         let mut reach = post.iter.clone();
         reach.extend(held.iter().copied());
+        reach.extend(keep.ids()); // what the caller already owned (e.g. planted "held" elements) stays alive
         ledger::forgive_unreachable(&reach);
     }
     let live = ledger::live_ids();
